@@ -74,6 +74,10 @@ type epochInfo struct {
 	cond   string
 	e1, e2 int
 	terms  map[string]string
+	// havoc epochs: the state just before (for fields that are never written anywhere, see indexFieldWrites)
+	prevEpoch int
+	prevHeap  map[string]string
+	prevAlloc string
 }
 
 type VC struct {
@@ -266,6 +270,17 @@ func (vc *VC) epochTerm(e int, key string) string {
 	case "havoc":
 		t = fmt.Sprintf("H%d_%s", e, sanitize(key))
 		vc.declare(t, arrSort)
+		if ei.prevAlloc != "" && !vc.eng.mutableFields[key] && strings.Contains(key, ".") {
+			// never-written field: objects allocated before the havoc keep their value
+			prev, ok := ei.prevHeap[key]
+			if !ok {
+				prev = vc.epochTerm(ei.prevEpoch, key)
+			}
+			d := fmt.Sprintf("(assert (forall ((r_m Int)) (! (=> (select %s r_m) (= (select %s r_m) (select %s r_m))) :pattern ((select %s r_m)))))", ei.prevAlloc, t, prev, t)
+			vc.defs = append(vc.defs, d)
+			vc.defOf[t] = d
+			vc.assumptionsUsed["fields never assigned anywhere in the package (field-write census, e.g. Array.Storage) keep their value in allocated objects across calls with unknown effect (writes by importing packages or reflection are not considered)"] = true
+		}
 	case "merge":
 		a := vc.epochTerm(ei.e1, key)
 		b := vc.epochTerm(ei.e2, key)
@@ -310,8 +325,11 @@ func (vc *VC) heapSet(st *State, key, elemSort, arrTerm string) {
 }
 
 func (vc *VC) havocAllHeap(st *State) {
+	prevHeap, prevEpoch := st.heap, st.epoch
 	st.heap = map[string]string{}
 	st.epoch = vc.newEpoch("havoc", "", 0, 0)
+	ei := vc.epochs[st.epoch]
+	ei.prevHeap, ei.prevEpoch, ei.prevAlloc = prevHeap, prevEpoch, st.alloc
 	old := st.alloc
 	st.alloc = vc.fresh("alloc", "(Array Int Bool)")
 	vc.assume(st, fmt.Sprintf("(forall ((r Int)) (! (=> (select %s r) (select %s r)) :pattern ((select %s r))))", old, st.alloc, old))
